@@ -307,6 +307,18 @@ def _module_level_cases(case):
         ok = r is old and torch.equal(old, new)
         out.append(result(f"{func}/tensor-copied-in-place[{case}/s{int(store)}]", func, "discharged" if ok else "violated", backend="concrete-execution", case=case,
                           text="old tensor object receives copy_ of the new value and is returned (identity preserved)", replay=dict(kind="module")))
+        # tensor with a memory layout that cannot be flattened without copying (transposed / column slice): the values must still land IN the old tensor
+        for mk_old in (lambda: torch.zeros(3, 2).t(), lambda: torch.zeros(3, 4)[:, 1:3], lambda: torch.zeros(2, 3, 2).permute(2, 0, 1), lambda: torch.zeros(6)[::2]):
+            old = mk_old()
+            new = torch.arange(float(old.numel())).reshape(old.shape) + 1.0
+            try:
+                r = build()(old_state=old, new_state=new)
+                ok = r is old and torch.equal(old, new)
+            except BaseException:  # noqa
+                ok = False
+            out.append(result(f"{func}/non-contiguous-tensor-copied-in-place[{case}/s{int(store)}/{tuple(old.shape)}-{tuple(old.stride())}]", func, "discharged" if ok else "violated",
+                              backend="concrete-execution", case=case, text="a transposed / permuted / sliced old tensor receives the new values in place (identity preserved, values reproduced)",
+                              replay=dict(kind="noncontig")))
         # module
         m, sd = Mod(), {"x": 1}
         del mcalls[:]
@@ -524,6 +536,60 @@ def native_shared_and_reordered():
     return None
 
 
+def native_noncontiguous_load():
+    import torch
+    from optimizer_modules import OptimizerModule
+
+    class M(OptimizerModule):
+        def __init__(self, off):
+            self.buf = torch.zeros(3, 4) + off
+            self.t = (torch.arange(6.0).reshape(2, 3) + off).t()
+            self.col = self.buf[:, 1:3]
+            self.d = {"p": (torch.arange(8.0).reshape(2, 2, 2) + off).permute(2, 0, 1)}
+
+    a, b = M(10.0), M(0.0)
+    ids = [id(b.t), id(b.col), id(b.d["p"])]
+    b.load_state_dict(a.state_dict())
+    if [id(b.t), id(b.col), id(b.d["p"])] != ids:
+        return "load_state_dict replaced non-contiguous tensor objects"
+    for nm, x, y in (("transposed", b.t, a.t), ("column block", b.col, a.col), ("permuted", b.d["p"], a.d["p"])):
+        if not torch.equal(x, y):
+            return f"a {nm} (non-contiguous) tensor held by a module was not reproduced by load_state_dict"
+    return None
+
+
+def native_nested_leafless_update():
+    """restoring through update_param_state_dict_object never depends on leaf-less entries, however deeply the tensor-less structure is nested"""
+    import torch
+    from optimizer_modules import OptimizerModule
+    from distributed_shampoo.utils.shampoo_checkpoint_utils import extract_state_dict_content, flatten, unflatten, update_param_state_dict_object
+
+    class E(OptimizerModule):
+        def __init__(self, depth):
+            self.tup = ()
+            self.inner = {} if depth == 0 else {"x": E(depth - 1)}
+
+    shapes = [{"e": {}}, {"a": {"b": {}}}, {"a": {"b": {"c": {}}}}, {"a": {"b": {"c": {"d": {}}}}, "z": {}}, {"m": E(0)}, {"blk": {"shampoo": E(0)}}, {"blk": {"shampoo": E(2)}},
+              {"a": {"m": E(1), "b": {"c": {}}}}]
+    for sh in shapes:
+        cur = dict(sh, w=torch.zeros(2))
+        src = dict(sh, w=torch.ones(2))
+        try:
+            to_load = unflatten(flatten(extract_state_dict_content(src)))
+            update_param_state_dict_object(cur, to_load, enable_missing_key_check=True)
+        except BaseException as e:  # noqa
+            return f"state {sh}: loading the flattened-and-unflattened state raised {type(e).__name__}: {e} (restoring depends on a leaf-less entry)"
+        if not torch.equal(cur["w"], torch.ones(2)):
+            return f"state {sh}: the tensor next to the leaf-less entry was not restored"
+    # and a genuinely missing tensor entry still raises
+    try:
+        update_param_state_dict_object({"w": torch.zeros(2), "v": {"t": torch.zeros(1)}}, {"w": torch.ones(2)}, enable_missing_key_check=True)
+        return "a missing entry that DOES hold a tensor was accepted silently"
+    except KeyError:
+        pass
+    return None
+
+
 def native_pruned_load():
     """restoring never depends on leaf-less sub-dictionaries: a module graph with tensor-less elements (empty module / dict / list / tuple) at dictionary
     keys and at sequence positions loads its own state dict after the flatten / unflatten round trip, which drops those entries"""
@@ -645,6 +711,11 @@ def bounded(tier, seed):
     evals += n
     if bad:
         viol.append(dict(ob="bounded/flatten-unflatten-roundtrip", func="flatten/unflatten", input={}, text=bad, detail=bad, replay=dict(kind="tree")))
+    for fn_, ob_, kd_ in ((native_noncontiguous_load, "non-contiguous-tensors-load-in-place", "noncontig"), (native_nested_leafless_update, "nested-leaf-less-entries-not-needed", "nested_leafless")):
+        bad = fn_()
+        evals += 1
+        if bad:
+            viol.append(dict(ob=f"bounded/{ob_}", func="OptimizerModule.load_state_dict / update_param_state_dict_object", input={}, text=bad, detail=bad, replay=dict(kind=kd_)))
     bad = native_pruned_load()
     evals += 1
     if bad:
@@ -671,6 +742,12 @@ def replay(r):
 
 def replay_file(doc):
     rp = doc.get("replay_input") or {}
+    if rp.get("kind") == "noncontig":
+        bad = native_noncontiguous_load()
+        return bool(bad), bad or "non-contiguous module tensors are loaded in place"
+    if rp.get("kind") == "nested_leafless":
+        bad = native_nested_leafless_update()
+        return bool(bad), bad or "update_param_state_dict_object does not depend on nested leaf-less entries"
     if rp.get("kind") == "pruned":
         bad = native_pruned_load()
         return bool(bad), bad or "a round-tripped (pruned) state dict loads into modules with leaf-less elements at dict keys and sequence positions"
